@@ -1,6 +1,7 @@
 """C10 - Every start/stop job terminates in bounded ticks whatever gets lost (structural clauses)."""
 import ast
 from ..model import own_nodes, AnalysisError
+from ..defuse import closed_text
 from ..paths import factmap, call_text, returns, must_call, all_paths, atoms
 from .. import supstates
 from .c16 import iter_mutation
@@ -315,11 +316,16 @@ def run(P, R):
     R.check(r4, ok, 'the lost instances and processes come from invalidate_failed()', 'lost|source', u.loc(),
             '_check_instances does not store the result of context.invalidate_failed()')
     u = P.unit('Commander.on_instances_invalidation')
-    n_calls = len([c for c in own_nodes(u.node) if isinstance(c, ast.Call)
-                   and call_text(c) == 'application_jobs.on_instances_invalidation'])
-    its = sorted(ast.unparse(l.iter) for l in own_nodes(u.node) if isinstance(l, ast.For))
-    ok = n_calls == 2 and its == ['list(application_jobs_map.values())', 'list(self.current_jobs.values())',
-                                  'list(self.planned_jobs.values())'] and \
+    # every current AND every planned application job is informed (closed forms of what the informing loops iterate:
+    # two loops, or one loop over a list gathering both), then next()
+    calls_ = [c for c in own_nodes(u.node) if isinstance(c, ast.Call) and isinstance(c.func, ast.Attribute)
+              and c.func.attr == 'on_instances_invalidation' and not ast.unparse(c.func.value).startswith('self.')]
+    recv = ' '.join(closed_text(u, c.func.value) for c in calls_)
+    for l in own_nodes(u.node):
+        if isinstance(l, ast.For) and any(x is c for c in calls_ for x in ast.walk(l)):
+            recv += ' ' + closed_text(u, l.iter)
+    srcs = recv + ' ' + ' '.join(ast.unparse(a.value) for a in own_nodes(u.node) if isinstance(a, (ast.Assign, ast.AugAssign)))
+    ok = bool(calls_) and 'self.current_jobs.values()' in srcs and 'self.planned_jobs.values()' in srcs and \
         must_call(u.node, lambda c: call_text(c) == 'self.next')
     R.check(r4, ok, 'current and planned application jobs are all informed, then next()', 'lost|Commander', u.loc(),
             'Commander.on_instances_invalidation does not reach every current and planned application job / does not '
